@@ -156,6 +156,13 @@ def consistent(ctx, clause, D, genome, expect_str=None, zero_ok=True):
     img = rm.seq_image(genome, rm.loc_positions(Lo), rm.loc_strand(Lo))
     ctx.eq(clause + ":location_consistent", _u2t(img), _u2t(str(D)), extra={"loc": str(Lo)})
     ctx.true(clause + ":location_on_root", Lo.parent is not None and Lo.parent.id == "root", repr(Lo.parent)[:80])
+    # ... and the recorded location, read on the parent it hangs on, spells the characters (the parent is THIS molecule, not another
+    # one of the same name and length met earlier in the process)
+    if Lo.parent is not None and Lo.parent.sequence is not None and rm.loc_strand(Lo) != ".":
+        try:
+            ctx.eq(clause + ":location_extracts_its_characters", _u2t(str(Lo.extract_sequence())), _u2t(str(D)), extra={"loc": str(Lo)})
+        except Exception as e:
+            ctx.fail(clause + ":location_extract_raises", repr(e)[:100])
     return True
 
 
@@ -166,9 +173,22 @@ def norm_slice(a, b, n):
 def check_derived(spec, ctx):
     labels(ctx, spec)
     g, alpha, L = spec["genome"], spec["alphabet"], spec["loc"]
+    pos = rm.positions(L["blocks"], L["strand"])
+    if spec.get("decoy") and len(g) > 1:
+        # another molecule of the same name, type, alphabet and length but other bases (an edited or soft-masked copy) carried the
+        # same located sequence, sliced and reverse-complemented, just before
+        g2 = g[1:] + g[:1]
+        if g2 != g:
+            try:
+                img2 = rm.seq_image(g2, pos, L["strand"])
+                Sq2 = Sequence(img2, Alphabet[alpha], parent=Parent(location=mkloc(L, root_parent(g2, alpha))))
+                Sq2[1:], Sq2[:-1], Sq2.reverse_complement()
+                Sq2.parent.location.extract_sequence()
+                ctx.label("decoy_molecule_read_first")
+            except Exception:
+                pass
     root = root_parent(g, alpha)
     loc = mkloc(L, root)
-    pos = rm.positions(L["blocks"], L["strand"])
     img = rm.seq_image(g, pos, L["strand"])
     Sq = Sequence(img, Alphabet[alpha], parent=Parent(location=loc))
     consistent(ctx, "constructed", Sq, g, img)
